@@ -104,7 +104,7 @@ class MiniEval:
                 continue
             if isinstance(st, ast.Assert):
                 continue
-            if isinstance(st, ast.Pass):
+            if isinstance(st, (ast.Pass, ast.Import, ast.ImportFrom, ast.Global, ast.Nonlocal)):
                 continue
             if isinstance(st, ast.For) and not st.orelse:
                 it = self.ev(st.iter, env)
